@@ -9,4 +9,13 @@ PROPS = {
         "not_modelled": "core::str::parse::<f32/f64> (external; contract: correctly rounded)",
         "assumptions": ["Rust `str::trim` = Unicode White_Space set written out in Basic/Text.lean (exercised by the whitespace-wrapped tokens)"],
     },
+    "C07": {
+        "lean_modules": ["SaphyrVerif.Props.C07", "SaphyrVerif.Props.C07_Tables"],
+        "harness": [("c07", "gen"), ("pump", "gen")],
+        "decisive": ["c07 run"],
+        "modelled": "budget.rs BudgetEnforcer (observe, finalize, begin_document, container-state stack), per-document policy; live_events.rs budget integration incl. replayed events (pump model)",
+        "not_modelled": "check_yaml_budget convenience wrapper; usize overflow of += 1 counters (needs 2^64 events)",
+        "assumptions": ["parser contract: events are the flattening of document trees (theorems about trees); first_breach_kind holds for arbitrary event lists",
+                        "physical bound: fewer than 2^64 events (makes the saturating depth increment exact)"],
+    },
 }
